@@ -429,6 +429,44 @@ func runC04(c *Ctx) {
 		}
 		badPlain, badWild := "", ""
 		nPlain, nWild := 0, 0
+		rets := s.Rets
+		if d == nil {
+			// the scan may be slices.ContainsFunc(list, per-value test): the per-value test, stated over
+			// the bound element, is then what "true" means
+			g2 := NewGate(c.P)
+			g2.Inline = inlineOnly()
+			g2.Search = true
+			s2 := g2.Eval(idso)
+			u2 := g2.U
+			ps2 := g2.ParamExprs(idso)
+			if res := g2.RetExpr(s2, 0); res != nil && isBoolE(res) {
+				R := u2.ToBool(res)
+				for _, at := range u2.AtomsOf(R) {
+					if at.Op != "exists" || len(at.Args) != 2 || at.Args[0] != ps2[1] || R != u2.Atom(at) || at.Args[1].Op != "bool" {
+						continue
+					}
+					pred := at.Args[1].B
+					var bv *E
+					for _, a2 := range u2.AtomsOf(pred) {
+						for _, x := range u2.Collect(a2, func(x *E) bool { return x.Op == "bvar" }) {
+							bv = x
+						}
+					}
+					if bv == nil {
+						continue
+					}
+					g, s, u, ps, dom, d = g2, s2, u2, ps2, ps2[0], bv
+					w := u.Atom(u.Call("strings.HasSuffix", types.Typ[types.Bool], d, u.Str(".*")))
+					rets = nil
+					if c1 := u.bdd.And(pred, u.bdd.Not(w)); c1 != False {
+						rets = append(rets, Ret{Cond: c1, Vals: []*E{u.Bool(True)}})
+					}
+					if c2 := u.bdd.And(pred, w); c2 != False {
+						rets = append(rets, Ret{Cond: c2, Vals: []*E{u.Bool(True)}})
+					}
+				}
+			}
+		}
 		if d == nil {
 			badPlain = "UNDECIDED: no test for the wildcard suffix on the list element"
 			badWild = badPlain
@@ -436,7 +474,7 @@ func runC04(c *Ctx) {
 			wild := u.Atom(u.Call("strings.HasSuffix", types.Typ[types.Bool], d, u.Str(".*")))
 			eq := u.ToBool(u.Eq(dom, d))
 			dotSuf := u.ToBool(u.Call("strings.HasSuffix", types.Typ[types.Bool], dom, u.Bin(token.ADD, u.Str("."), d, types.Typ[types.String])))
-			for _, r := range s.Rets {
+			for _, r := range rets {
 				if !(r.Vals[0].Op == "bool" && r.Vals[0].B == True) {
 					continue
 				}
